@@ -23,7 +23,7 @@ MECHANISMS = ["jaxley.modules.base:Module._gather_channels_from_constituents", "
               "jaxley.utils.cell_utils:compute_children_and_parents", "jaxley.utils.cell_utils:merge_cells"]
 MECHANISMS_REQUIRED = MECHANISMS[:5]
 REQUIRED = {"quick": {"rows_preserved": 60, "alone_equiv": 20, "sibling_perm": 12},
-            "thorough": {"rows_preserved": 1689, "alone_equiv": 150, "sibling_perm": 200}}
+            "thorough": {"rows_preserved": 1856, "alone_equiv": 150, "sibling_perm": 210}}
 WALL_BUDGET = {"quick": 1500, "thorough": 4 * 3600}
 
 
